@@ -621,3 +621,28 @@ def first_target(d):
         if v["kind"] == "elem" and v["class"] in ("VAR", "VAR_OUTPUT") and v["qual"] != "CONSTANT":
             return v["name"]
     return "x"
+
+
+import re as _re
+
+_WORD = _re.compile(r"'[^']*'|\"[^\"]*\"|(?<![A-Za-z0-9_#%.])[A-Za-z_][A-Za-z0-9_]*#?")
+_KW = None
+
+
+def recase_identifiers(text, rng, p=0.5):
+    """Re-spells identifier occurrences in another letter case (IEC identifiers are case-insensitive); keywords,
+    literals (T#.., 16#..), typed-literal prefixes and strings are left alone."""
+    global _KW
+    if _KW is None:
+        import gen
+        _KW = set(gen.KEYWORDS) | {"PLC"}
+
+    def sub(m):
+        w = m.group(0)
+        if w[0] in "'\"#" or w.endswith("#") or w.upper() in _KW:
+            return w
+        if rng.random() >= p:
+            return w
+        k = rng.randrange(3)
+        return w.upper() if k == 0 else w.lower() if k == 1 else w.swapcase()
+    return _WORD.sub(sub, text)
